@@ -619,6 +619,16 @@ func (g *gen) doLoopHead(ci *cfgInfo, h *ssa.BasicBlock, conds []string, preds [
 		for j, inv := range spec.Invariants {
 			g.oblige("loop.init", fmt.Sprintf("loop%d.init[%d]", k, j+1), inv.Text, g.specBool(e, inv), h.Instrs[0].Pos())
 		}
+		// "loop k ranges <expr>": the slice the loop ranges over is that one (checked where the loop is entered)
+		for j, rg := range spec.Ranges {
+			rs, ok := e.vars["rangeslice"]
+			goal := "false"
+			if ok {
+				want := g.specExpr(e, rg.Expr, sSlice, rg)
+				goal = sx("=", rs.S, want.S)
+			}
+			g.oblige("loop.init", fmt.Sprintf("loop%d.ranges[%d]", k, j+1), "the loop ranges over "+rg.Text, goal, h.Instrs[0].Pos())
+		}
 	}
 	// havoc: phis, and state components modified in the loop body
 	mods, all := g.loopMods(ci, h)
